@@ -118,6 +118,10 @@ func (tx *SignedTransaction) GetExtraLimit() int {
 	if out.Amount.Cmp(step) < 0 {
 		return ExtraSizeGeneralLimit
 	}
+	full := step.Mul(ExtraSizeStorageCapacity / ExtraSizeStorageStep)
+	if out.Amount.Cmp(full) >= 0 {
+		return ExtraSizeStorageCapacity
+	}
 	cells := out.Amount.Count(step)
 	limit := cells * ExtraSizeStorageStep
 	if limit > ExtraSizeStorageCapacity {
